@@ -37,6 +37,8 @@ patch("internal/runtime/maps/map.go", [
 patch("runtime/rand.go", [
     ("func rand() uint64 {\n", "func rand() uint64 {\n\tif verifDet != 0 {\n\t\tverifRandState += 0x9E3779B97F4A7C15\n\t\tz := verifRandState\n\t\tz = (z ^ (z >> 30)) * 0xBF58476D1CE4E5B9\n\t\tz = (z ^ (z >> 27)) * 0x94D049BB133111EB\n\t\treturn z ^ (z >> 31)\n\t}\n", 1),
 ])
+for rel in ("math/rand/rand.go", "math/rand/v2/rand.go"):
+    patch(rel, [("//go:linkname runtime_rand runtime.rand", "//go:linkname runtime_rand runtime.verifUserRand", 1)])
 add("runtime/verif_runtime.go", '''package runtime
 
 import (
@@ -52,9 +54,28 @@ var verifRandState uint64
 func verifSetDet(on uint32, selRot uint32, mapOff uint64) {
 	verifDet = on
 	verifRandState = mapOff
+	verifUserRandState = mapOff
 	verifSelRot = selRot
 	maps.VerifDet = on
 	maps.VerifMapOff = mapOff
+}
+
+var verifUserRandState uint64
+
+// verifUserRand backs math/rand and math/rand/v2 (their runtime_rand is linknamed here by
+// the overlay): a private splitmix stream while the determinism switch is on, so that
+// runtime-internal users of rand() cannot perturb what the program under test draws.
+//
+//go:linkname verifUserRand
+func verifUserRand() uint64 {
+	if verifDet != 0 {
+		verifUserRandState += 0x9E3779B97F4A7C15
+		z := verifUserRandState
+		z = (z ^ (z >> 30)) * 0xBF58476D1CE4E5B9
+		z = (z ^ (z >> 27)) * 0x94D049BB133111EB
+		return z ^ (z >> 31)
+	}
+	return rand()
 }
 
 func verifSelectJ(n uint32) uint32 {
